@@ -5,36 +5,610 @@ import TddaVerif.Props.C04Spec
 namespace TddaVerif.Props.C15.Lemmas
 open TddaVerif.Py TddaVerif.CheckStrings TddaVerif.Props.C04
 
+/-! ## the file plan -/
+
 theorem pass_writes_nothing (o : Opts) (pat : PatFn) (a e : List Line) (gnl : Bool)
     (h : (checkStrings o pat a e).failures = 0) :
     plan o (checkStrings o pat a e) gnl = { rawActual := none, diffActual := none, diffExpected := none } := by
-  sorry
-
-theorem raw_actual_content (o : Opts) (pat : PatFn) (a e : List Line) (gnl : Bool)
-    (hf : (checkStrings o pat a e).failures = 1) (hc : o.createTemporaries = true)
-    (hs : o.actualPath = false) :
-    (plan o (checkStrings o pat a e) gnl).rawActual = some (joinNl (kept o a)) := by
-  sorry
+  simp [plan, h]
 
 theorem file_actual_not_rewritten (o : Opts) (pat : PatFn) (a e : List Line) (gnl : Bool)
     (hs : o.actualPath = true) : (plan o (checkStrings o pat a e) gnl).rawActual = none := by
-  sorry
+  unfold plan
+  split
+  · rfl
+  · simp only [hs]
+    split <;> simp
 
 theorem binary_offset_exact (a e : List Nat) :
     firstDiff a e ≤ min a.length e.length ∧
     (∀ i, i < firstDiff a e → a[i]? = e[i]?) ∧
     (firstDiff a e = min a.length e.length ∨ a[firstDiff a e]? ≠ e[firstDiff a e]?) := by
-  sorry
+  induction a generalizing e with
+  | nil => simp [firstDiff]
+  | cons x xs ih =>
+    cases e with
+    | nil => simp [firstDiff]
+    | cons y ys =>
+      by_cases hxy : x = y
+      · subst hxy
+        obtain ⟨h1, h2, h3⟩ := ih ys
+        simp only [firstDiff, beq_self_eq_true, if_true, List.length_cons]
+        refine ⟨by omega, ?_, ?_⟩
+        · intro i hi
+          cases i with
+          | zero => simp
+          | succ i => simpa using h2 i (by omega)
+        · rcases h3 with h3 | h3
+          · left; omega
+          · right; simpa using h3
+      · simp [firstDiff, hxy]
+
+/-! ## diff markers -/
+
+theorem diffMarker_self (l : Line) : diffMarker l l = l := by
+  simp [diffMarker]
+
+theorem cpl_le (a b : Line) : commonPrefixLen a b ≤ a.length ∧ commonPrefixLen a b ≤ b.length := by
+  induction a generalizing b with
+  | nil => simp [commonPrefixLen]
+  | cons x xs ih =>
+    cases b with
+    | nil => simp [commonPrefixLen]
+    | cons y ys =>
+      simp only [commonPrefixLen]
+      split
+      · have := ih ys; simp; omega
+      · simp
+
+theorem cpl_take (a b : Line) : a.take (commonPrefixLen a b) = b.take (commonPrefixLen a b) := by
+  induction a generalizing b with
+  | nil => simp [commonPrefixLen]
+  | cons x xs ih =>
+    cases b with
+    | nil => simp [commonPrefixLen]
+    | cons y ys =>
+      simp only [commonPrefixLen]
+      split
+      · rename_i h
+        simp at h
+        simp [h, ih ys]
+      · simp
+
+theorem cpl_next (a b : Line) :
+    (a.drop (commonPrefixLen a b)).head? ≠ (b.drop (commonPrefixLen a b)).head? ∨
+      a.drop (commonPrefixLen a b) = [] ∨ b.drop (commonPrefixLen a b) = [] := by
+  induction a generalizing b with
+  | nil => simp [commonPrefixLen]
+  | cons x xs ih =>
+    cases b with
+    | nil => simp [commonPrefixLen]
+    | cons y ys =>
+      simp only [commonPrefixLen]
+      split
+      · simpa using ih ys
+      · rename_i h
+        simp at h
+        simp [h]
 
 theorem diffMarker_shape (l r : Line) (h : l ≠ r) :
     ∃ pre ml mr suf, l = pre ++ ml ++ suf ∧ r = pre ++ mr ++ suf ∧
       diffMarker l r = pre ++ ['('] ++ ml ++ ['|'] ++ mr ++ [')'] ++ suf ∧
       (ml.head? ≠ mr.head? ∨ ml = [] ∨ mr = []) ∧
       (ml.getLast? ≠ mr.getLast? ∨ ml = [] ∨ mr = []) := by
-  sorry
+  generalize hpre : commonPrefixLen l r = pre
+  generalize hl' : l.drop pre = l'
+  generalize hr' : r.drop pre = r'
+  generalize hpost : commonPrefixLen l'.reverse r'.reverse = post
+  have hle := cpl_le l'.reverse r'.reverse
+  rw [hpost] at hle
+  simp only [List.length_reverse] at hle
+  have htk := cpl_take l r
+  rw [hpre] at htk
+  have hsuf : l'.drop (l'.length - post) = r'.drop (r'.length - post) := by
+    have := cpl_take l'.reverse r'.reverse
+    rw [hpost, List.take_reverse, List.take_reverse] at this
+    exact List.reverse_inj.mp this
+  have hl : l = l.take pre ++ (l'.take (l'.length - post) ++ l'.drop (l'.length - post)) := by
+    rw [List.take_append_drop, ← hl', List.take_append_drop]
+  have hr : r = l.take pre ++ (r'.take (r'.length - post) ++ l'.drop (l'.length - post)) := by
+    rw [hsuf, List.take_append_drop, ← hr', htk, List.take_append_drop]
+  refine ⟨l.take pre, l'.take (l'.length - post), r'.take (r'.length - post),
+    l'.drop (l'.length - post), ?_, ?_, ?_, ?_, ?_⟩
+  · simpa using hl
+  · simpa using hr
+  · have hne : (l == r) = false := by simpa using h
+    simp only [diffMarker, hne, hpre, hl', hr', hpost]
+    simp only [Bool.false_eq_true, if_false]
+    congr 1
+    split
+    · have hlen : l'.length = l.length - pre := by rw [← hl']; simp
+      have : l.length - post = pre + (l'.length - post) := by
+        have := (cpl_le l r).1; omega
+      rw [this, ← List.drop_drop, hl']
+    · have : post = 0 := by omega
+      simp [this]
+  · have := cpl_next l r
+    rw [hpre, hl', hr'] at this
+    rcases this with h1 | h1 | h1
+    · by_cases hml : l'.length - post = 0
+      · right; left; simp [hml]
+      · by_cases hmr : r'.length - post = 0
+        · right; right; simp [hmr]
+        · left; simp [List.head?_take, hml, hmr, h1]
+    · right; left; simp [h1]
+    · right; right; simp [h1]
+  · have := cpl_next l'.reverse r'.reverse
+    rw [hpost, List.drop_reverse, List.drop_reverse] at this
+    simpa using this
 
-theorem diffMarker_self (l : Line) : diffMarker l l = l := by
-  sorry
+/-! ## index lists of filtered positions -/
+
+section idx
+variable {α : Type} (p : α → Bool) (d : α)
+
+theorem map_getD_range (l : List α) : (List.range l.length).map (fun i => l.getD i d) = l := by
+  apply List.ext_getElem
+  · simp
+  · intro i h1 h2
+    simp [h2]
+
+theorem filterIdx_map (l : List α) :
+    ((List.range l.length).filter (fun i => p (l.getD i d))).map (fun i => l.getD i d) = l.filter p := by
+  have := List.filter_map (f := fun i => l.getD i d) (p := p) (l := List.range l.length)
+  rw [map_getD_range] at this
+  rw [this]; rfl
+
+theorem filterIdx_length_take (l : List α) (i : Nat) (hi : i ≤ l.length) :
+    ((List.range i).filter (fun j => p (l.getD j d))).length = ((l.take i).filter p).length := by
+  induction i with
+  | zero => simp
+  | succ i ih =>
+    have hi' : i < l.length := by omega
+    rw [List.range_succ, List.take_add_one, List.filter_append, List.filter_append,
+      List.length_append, List.length_append, ih (by omega)]
+    simp only [hi', List.filter_cons, List.getD_eq_getElem?_getD, List.getElem?_eq_getElem, Option.getD_some, List.filter_nil, Option.toList]
+    split <;> simp
+
+theorem split_at (l : List α) (i : Nat) (hi : i < l.length) :
+    l = l.take i ++ l[i] :: l.drop (i+1) := by
+  rw [← List.drop_eq_getElem_cons, List.take_append_drop]
+
+theorem filter_getElem?_of_split (l : List α) (i : Nat) (hi : i < l.length) (hp : p l[i] = true) :
+    (l.filter p)[((l.take i).filter p).length]? = some l[i] := by
+  conv => lhs; rw [split_at l i hi]
+  rw [List.filter_append, List.filter_cons, if_pos hp]
+  simp
+
+theorem filterIdx_getElem? (l : List α) (i : Nat) (hi : i < l.length) (hp : p l[i] = true) :
+    ((List.range l.length).filter (fun j => p (l.getD j d)))[((l.take i).filter p).length]? = some i := by
+  have h := filter_getElem?_of_split (fun j => p (l.getD j d)) (List.range l.length) i (by simpa using hi)
+    (by simpa [hi] using hp)
+  rw [List.take_range, Nat.min_eq_left (by omega), filterIdx_length_take p d l i (by omega)] at h
+  simpa using h
+end idx
+
+/-! ## what `checkStrings` hands to `reconstruct` in the same-length case -/
+
+/-- the after-removal list as computed by `checkStrings` -/
+def after (o : Opts) (oa : List Line) : List Line :=
+  if !o.removeLines.isEmpty then (survivorIdx o oa).map (fun i => oa.getD i []) else oa
+def remIdx (o : Opts) (oa : List Line) : List Nat :=
+  if !o.removeLines.isEmpty then removalIdx o oa else []
+def idxMap (o : Opts) (oa : List Line) : Nat → Nat :=
+  fun k => if !o.removeLines.isEmpty then (survivorIdx o oa).getD k k else k
+def diffsOf (o : Opts) (actual expected : List Line) : List Nat :=
+  (List.range actual.length).filter
+        (fun i => normalize o (actual.getD i []) != normalize o (expected.getD i []))
+
+theorem cs_actualAfter (o : Opts) (pat : PatFn) (a e : List Line) :
+    (checkStrings o pat a e).actualAfter = after o (dropTrailingEmpty a) := rfl
+
+theorem cs_recon (o : Opts) (pat : PatFn) (a e : List Line) (ra re : List Line)
+    (hl : (after o (dropTrailingEmpty a)).length = (after o (dropTrailingEmpty e)).length)
+    (hr : (checkStrings o pat a e).reconstruction = some (ra, re)) :
+    (ra, re) = reconstruct ((dropTrailingEmpty a).map (normalize o)) ((dropTrailingEmpty e).map (normalize o))
+      (remIdx o (dropTrailingEmpty a)) (remIdx o (dropTrailingEmpty e))
+      (wrongContent o pat (after o (dropTrailingEmpty a)) (after o (dropTrailingEmpty e))
+        (idxMap o (dropTrailingEmpty a)) (idxMap o (dropTrailingEmpty e))
+        (diffsOf o (after o (dropTrailingEmpty a)) (after o (dropTrailingEmpty e)))).aIgn
+      (wrongContent o pat (after o (dropTrailingEmpty a)) (after o (dropTrailingEmpty e))
+        (idxMap o (dropTrailingEmpty a)) (idxMap o (dropTrailingEmpty e))
+        (diffsOf o (after o (dropTrailingEmpty a)) (after o (dropTrailingEmpty e)))).eIgn := by
+  generalize hoa : dropTrailingEmpty a = oa at *
+  generalize hoe : dropTrailingEmpty e = oe at *
+  have hl' : ((after o oa).length == (after o oe).length) = true := by simpa using hl
+  by_cases hd : (diffsOf o (after o oa) (after o oe)).isEmpty = true
+  · have hd' : diffsOf o (after o oa) (after o oe) = [] := by simpa using hd
+    have : (checkStrings o pat a e).reconstruction =
+        (if (o.preprocess || !([] : List Nat).isEmpty || !([] : List Nat).isEmpty || !(remIdx o oa).isEmpty || !(remIdx o oe).isEmpty
+                    || (!o.actualPath && 0 > 0)) then
+          some (reconstruct (oa.map (normalize o)) (oe.map (normalize o)) (remIdx o oa) (remIdx o oe) [] [])
+         else none) := by
+      unfold checkStrings
+      simp only [hoa, hoe]
+      unfold after at hl'
+      unfold after diffsOf at hd
+      simp only [hl', hd]
+      rfl
+    rw [this] at hr
+    simp only [hd', wrongContent, List.foldl_nil]
+    split at hr
+    · exact (Option.some.inj hr).symm
+    · cases hr
+  · have hd' : (diffsOf o (after o oa) (after o oe)).isEmpty = false := by simpa using hd
+    generalize hwc : wrongContent o pat (after o oa) (after o oe) (idxMap o oa) (idxMap o oe)
+      (diffsOf o (after o oa) (after o oe)) = wc at *
+    have : (checkStrings o pat a e).reconstruction =
+        (if (o.preprocess || !wc.aIgn.isEmpty || !wc.eIgn.isEmpty || !(remIdx o oa).isEmpty || !(remIdx o oe).isEmpty
+                    || (!o.actualPath && wc.ndiffs > 0)) then
+          some (reconstruct (oa.map (normalize o)) (oe.map (normalize o)) (remIdx o oa) (remIdx o oe) wc.aIgn wc.eIgn)
+         else none) := by
+      unfold checkStrings
+      simp only [hoa, hoe]
+      unfold after at hl'
+      unfold after diffsOf at hd'
+      simp only [hl', hd']
+      rw [← hwc]
+      rfl
+    rw [this] at hr
+    split at hr
+    · exact (Option.some.inj hr).symm
+    · cases hr
+
+/-! ## the reconstruction loop -/
+
+abbrev nR (o : Opts) : Line → Bool := fun x => !removable o x
+abbrev neP : Line × Line → Bool := fun p => p.1 != p.2
+abbrev badP (o : Opts) (pat : PatFn) : Line × Line → Bool := fun p => !lineOKb o pat p.1 p.2
+abbrev normP (o : Opts) : Line × Line → Line × Line := fun p => (normalize o p.1, normalize o p.2)
+
+theorem zip_snoc_filter (ra re : List Line) (x y : Line) (h : ra.length = re.length) :
+    ((ra ++ [x]).zip (re ++ [y])).filter neP = (ra.zip re).filter neP ++ (if x != y then [(x, y)] else []) := by
+  rw [List.zip_append h, List.filter_append]
+  simp [List.filter_cons]
+
+theorem drop_filter_cons {α} (p : α → Bool) (l : List α) (i : Nat) (hi : i < l.length) :
+    (l.drop i).filter p = if p l[i] then l[i] :: (l.drop (i+1)).filter p else (l.drop (i+1)).filter p := by
+  rw [List.drop_eq_getElem_cons hi, List.filter_cons]
+
+theorem loop_spec (o : Opts) (pat : PatFn) (oa oe : List Line) (aRem eRem aIgn eIgn : List Nat)
+    (hRemA : ∀ i, aRem.contains i = (decide (i < oa.length) && removable o (oa.getD i [])))
+    (hRemE : ∀ i, eRem.contains i = (decide (i < oe.length) && removable o (oe.getD i [])))
+    (H : ∀ ia ie (ha : ia < oa.length) (he : ie < oe.length),
+      removable o oa[ia] = false → removable o oe[ie] = false →
+      ((oa.drop ia).filter (nR o)).length = ((oe.drop ie).filter (nR o)).length →
+      normalize o oa[ia] ≠ normalize o oe[ie] →
+      (aIgn.contains ia || eIgn.contains ie) = canIgnore o pat oa[ia] oe[ie]) :
+    ∀ fuel ia ie ra re, ia ≤ oa.length → ie ≤ oe.length →
+      (oa.length - ia) + (oe.length - ie) < fuel →
+      ((oa.drop ia).filter (nR o)).length = ((oe.drop ie).filter (nR o)).length →
+      ra.length = re.length →
+      (reconstructLoop (oa.map (normalize o)) (oe.map (normalize o)) aRem eRem aIgn eIgn fuel ia ie ra re).1.length
+        = (reconstructLoop (oa.map (normalize o)) (oe.map (normalize o)) aRem eRem aIgn eIgn fuel ia ie ra re).2.length ∧
+      ((reconstructLoop (oa.map (normalize o)) (oe.map (normalize o)) aRem eRem aIgn eIgn fuel ia ie ra re).1.zip
+        (reconstructLoop (oa.map (normalize o)) (oe.map (normalize o)) aRem eRem aIgn eIgn fuel ia ie ra re).2).filter neP
+        = (ra.zip re).filter neP ++
+          ((((oa.drop ia).filter (nR o)).zip ((oe.drop ie).filter (nR o))).filter (badP o pat)).map (normP o) := by
+  intro fuel
+  induction fuel with
+  | zero => intro ia ie ra re _ _ hf; omega
+  | succ fuel ih =>
+    intro ia ie ra re hia hie hf hcnt hlen
+    rw [reconstructLoop]
+    simp only [List.length_map]
+    by_cases hcond : (decide (ia < oa.length) || decide (ie < oe.length)) = true
+    · rw [if_pos hcond]
+      simp only [hRemA, hRemE]
+      by_cases hE : (decide (ie < oe.length) && removable o (oe.getD ie [])) = true
+      · -- the expected line is a removed one
+        have he : ie < oe.length := by simp at hE; exact hE.1
+        have hge : oe.getD ie [] = oe[ie] := by simp [he]
+        have hRe : removable o oe[ie] = true := by rw [hge] at hE; simp at hE; exact hE.2
+        have hde := drop_filter_cons (nR o) oe ie he
+        simp only [nR, hRe, Bool.not_true, Bool.false_eq_true, if_false] at hde
+        by_cases hA : (decide (ia < oa.length) && removable o (oa.getD ia [])) = true
+        · have ha : ia < oa.length := by simp at hA; exact hA.1
+          have hga : oa.getD ia [] = oa[ia] := by simp [ha]
+          have hRa : removable o oa[ia] = true := by rw [hga] at hA; simp at hA; exact hA.2
+          have hda := drop_filter_cons (nR o) oa ia ha
+          simp only [nR, hRa, Bool.not_true, Bool.false_eq_true, if_false] at hda
+          simp only [hA, hE, Bool.and_self, if_true]
+          generalize formatMarker (diffMarker ((oa.map (normalize o)).getD ia []) ((oe.map (normalize o)).getD ie [])) = m
+          have IH := ih (ia+1) (ie+1) (ra ++ [m]) (re ++ [m])
+            (by omega) (by omega) (by omega) (by rw [← hda, ← hde]; exact hcnt) (by simp [hlen])
+          rw [zip_snoc_filter _ _ _ _ hlen] at IH
+          simp only [bne_self_eq_false, Bool.false_eq_true, if_false, List.append_nil] at IH
+          rw [hda, hde]
+          exact IH
+        · have hA' : (decide (ia < oa.length) && removable o (oa.getD ia [])) = false := by simpa using hA
+          simp only [hA', hE, Bool.false_and, Bool.false_eq_true, if_false, if_true]
+          generalize formatMarker (diffMarker [] ((oe.map (normalize o)).getD ie [])) = m
+          have IH := ih ia (ie+1) (ra ++ [m]) (re ++ [m])
+            (by omega) (by omega) (by omega) (by rw [← hde]; exact hcnt) (by simp [hlen])
+          rw [zip_snoc_filter _ _ _ _ hlen] at IH
+          simp only [bne_self_eq_false, Bool.false_eq_true, if_false, List.append_nil] at IH
+          rw [hde]
+          exact IH
+      · have hE' : (decide (ie < oe.length) && removable o (oe.getD ie [])) = false := by simpa using hE
+        by_cases hA : (decide (ia < oa.length) && removable o (oa.getD ia [])) = true
+        · have ha : ia < oa.length := by simp at hA; exact hA.1
+          have hga : oa.getD ia [] = oa[ia] := by simp [ha]
+          have hRa : removable o oa[ia] = true := by rw [hga] at hA; simp at hA; exact hA.2
+          have hda := drop_filter_cons (nR o) oa ia ha
+          simp only [nR, hRa, Bool.not_true, Bool.false_eq_true, if_false] at hda
+          simp only [hA, hE', Bool.and_false, Bool.false_eq_true, if_false, if_true]
+          generalize formatMarker (diffMarker ((oa.map (normalize o)).getD ia []) []) = m
+          have IH := ih (ia+1) ie (ra ++ [m]) (re ++ [m])
+            (by omega) (by omega) (by omega) (by rw [← hda]; exact hcnt) (by simp [hlen])
+          rw [zip_snoc_filter _ _ _ _ hlen] at IH
+          simp only [bne_self_eq_false, Bool.false_eq_true, if_false, List.append_nil] at IH
+          rw [hda]
+          exact IH
+        · have hA' : (decide (ia < oa.length) && removable o (oa.getD ia [])) = false := by simpa using hA
+          simp only [hA', hE', Bool.and_false, Bool.false_eq_true, if_false]
+          by_cases ha : ia < oa.length
+          · have hga : oa.getD ia [] = oa[ia] := by simp [ha]
+            have hgna : (oa.map (normalize o)).getD ia [] = normalize o oa[ia] := by simp [ha]
+            have hRa : removable o oa[ia] = false := by rw [hga] at hA'; simpa [ha] using hA'
+            have hda := drop_filter_cons (nR o) oa ia ha
+            simp only [nR, hRa, Bool.not_false, if_true] at hda
+            by_cases he : ie < oe.length
+            · have hge : oe.getD ie [] = oe[ie] := by simp [he]
+              have hgne : (oe.map (normalize o)).getD ie [] = normalize o oe[ie] := by simp [he]
+              have hRe : removable o oe[ie] = false := by rw [hge] at hE'; simpa [he] using hE'
+              have hde := drop_filter_cons (nR o) oe ie he
+              simp only [nR, hRe, Bool.not_false, if_true] at hde
+              have hcnt' : ((oa.drop (ia+1)).filter (nR o)).length = ((oe.drop (ie+1)).filter (nR o)).length := by
+                have := hcnt; rw [hda, hde] at this; simpa using this
+              simp only [ge_iff_le, Nat.not_le.mpr ha, Nat.not_le.mpr he, if_false, hgna, hgne]
+              rw [hda, hde]
+              by_cases hn : normalize o oa[ia] = normalize o oe[ie]
+              · have hbeq : (normalize o oa[ia] == normalize o oe[ie]) = true := by simpa using hn
+                simp only [hbeq, if_true]
+                have IH := ih (ia+1) (ie+1) (ra ++ [normalize o oa[ia]]) (re ++ [normalize o oe[ie]])
+                  (by omega) (by omega) (by omega) hcnt' (by simp [hlen])
+                rw [zip_snoc_filter _ _ _ _ hlen] at IH
+                have hbne : (normalize o oa[ia] != normalize o oe[ie]) = false := by simp [hn]
+                simp only [hbne, Bool.false_eq_true, if_false, List.append_nil] at IH
+                refine ⟨IH.1, ?_⟩
+                rw [IH.2]
+                simp [lineOKb, hn]
+              · have hbeq : (normalize o oa[ia] == normalize o oe[ie]) = false := by simpa using hn
+                have hbne : (normalize o oa[ia] != normalize o oe[ie]) = true := by simp [hn]
+                simp only [hbeq, Bool.false_eq_true, if_false]
+                rw [H ia ie ha he hRa hRe hcnt hn]
+                by_cases hci : canIgnore o pat oa[ia] oe[ie] = true
+                · simp only [hci, if_true]
+                  generalize formatMarker (diffMarker (normalize o oa[ia]) (normalize o oe[ie])) = m
+                  have IH := ih (ia+1) (ie+1) (ra ++ [m]) (re ++ [m])
+                    (by omega) (by omega) (by omega) hcnt' (by simp [hlen])
+                  rw [zip_snoc_filter _ _ _ _ hlen] at IH
+                  simp only [bne_self_eq_false, Bool.false_eq_true, if_false, List.append_nil] at IH
+                  refine ⟨IH.1, ?_⟩
+                  rw [IH.2]
+                  simp [lineOKb, hci]
+                · have hci' : canIgnore o pat oa[ia] oe[ie] = false := by simpa using hci
+                  simp only [hci', Bool.false_eq_true, if_false]
+                  have IH := ih (ia+1) (ie+1) (ra ++ [normalize o oa[ia]]) (re ++ [normalize o oe[ie]])
+                    (by omega) (by omega) (by omega) hcnt' (by simp [hlen])
+                  rw [zip_snoc_filter _ _ _ _ hlen] at IH
+                  simp only [hbne, if_true] at IH
+                  refine ⟨IH.1, ?_⟩
+                  rw [IH.2]
+                  simp [lineOKb, hci', hbeq]
+            · exfalso
+              have : oe.drop ie = [] := List.drop_eq_nil_of_le (by omega)
+              rw [hda, this] at hcnt
+              simp at hcnt
+          · have he : ie < oe.length := by simp at hcond; omega
+            have hge : oe.getD ie [] = oe[ie] := by simp [he]
+            have hRe : removable o oe[ie] = false := by rw [hge] at hE'; simpa [he] using hE'
+            have hde := drop_filter_cons (nR o) oe ie he
+            simp only [nR, hRe, Bool.not_false, if_true] at hde
+            exfalso
+            have : oa.drop ia = [] := List.drop_eq_nil_of_le (by omega)
+            rw [hde, this] at hcnt
+            simp at hcnt
+    · rw [if_neg hcond]
+      have h1 : ia = oa.length := by simp at hcond; omega
+      have h2 : ie = oe.length := by simp at hcond; omega
+      subst h1 h2
+      simp [hlen]
+
+theorem wrongContent_ign (o : Opts) (pat : PatFn) (ac ex : List Line) (am em : Nat → Nat) (diffs : List Nat) :
+    (wrongContent o pat ac ex am em diffs).aIgn
+      = (diffs.filter (fun i => canIgnore o pat (ac.getD i []) (ex.getD i []))).map am ∧
+    (wrongContent o pat ac ex am em diffs).eIgn
+      = (diffs.filter (fun i => canIgnore o pat (ac.getD i []) (ex.getD i []))).map em := by
+  unfold wrongContent
+  generalize hst : ({ ndiffs := diffs.length, firstLine := none, cases := [], aIgn := [], eIgn := [] } : WC) = st
+  have h0 : st.aIgn = [] ∧ st.eIgn = [] := by subst hst; simp
+  suffices h : ∀ (ds : List Nat) (st : WC),
+      (ds.foldl (fun st i =>
+        let a := ac.getD i []
+        let e := ex.getD i []
+        if canIgnore o pat a e then
+          { st with ndiffs := st.ndiffs - 1, aIgn := st.aIgn ++ [am i], eIgn := st.eIgn ++ [em i] }
+        else
+          { st with firstLine := (match st.firstLine with | none => some (i + 1) | some l => some l),
+                    cases := if st.cases.length < o.maxPerm then st.cases ++ [(i, a, e)] else st.cases }) st).aIgn
+        = st.aIgn ++ (ds.filter (fun i => canIgnore o pat (ac.getD i []) (ex.getD i []))).map am ∧
+      (ds.foldl (fun st i =>
+        let a := ac.getD i []
+        let e := ex.getD i []
+        if canIgnore o pat a e then
+          { st with ndiffs := st.ndiffs - 1, aIgn := st.aIgn ++ [am i], eIgn := st.eIgn ++ [em i] }
+        else
+          { st with firstLine := (match st.firstLine with | none => some (i + 1) | some l => some l),
+                    cases := if st.cases.length < o.maxPerm then st.cases ++ [(i, a, e)] else st.cases }) st).eIgn
+        = st.eIgn ++ (ds.filter (fun i => canIgnore o pat (ac.getD i []) (ex.getD i []))).map em by
+    have := h diffs st
+    rw [h0.1, h0.2, List.nil_append, List.nil_append] at this
+    exact this
+  intro ds
+  induction ds with
+  | nil => intro st; simp
+  | cons d ds ih =>
+    intro st
+    rw [List.foldl_cons]
+    by_cases hc : canIgnore o pat (ac.getD d []) (ex.getD d []) = true
+    · simp only [hc, if_true, List.filter_cons]
+      have := ih { st with ndiffs := st.ndiffs - 1, aIgn := st.aIgn ++ [am d], eIgn := st.eIgn ++ [em d] }
+      simp only [List.append_assoc] at this
+      simpa using this
+    · have hc' : canIgnore o pat (ac.getD d []) (ex.getD d []) = false := by simpa using hc
+      simp only [hc', Bool.false_eq_true, if_false, List.filter_cons]
+      exact ih _
+
+/-! ## uniform description of the removal bookkeeping -/
+
+theorem removable_of_nil (o : Opts) (h : o.removeLines.isEmpty = true) (x : Line) :
+    removable o x = false := by
+  have : o.removeLines = [] := by simpa using h
+  simp [removable, this]
+
+theorem after_eq (o : Opts) (oa : List Line) : after o oa = oa.filter (nR o) := by
+  unfold after
+  split
+  · exact filterIdx_map (nR o) [] oa
+  · rename_i h
+    have h' : o.removeLines.isEmpty = true := by simpa using h
+    symm
+    rw [List.filter_eq_self]
+    intro x _
+    simp [nR, removable_of_nil o h']
+
+theorem remIdx_contains (o : Opts) (oa : List Line) (i : Nat) :
+    (remIdx o oa).contains i = (decide (i < oa.length) && removable o (oa.getD i [])) := by
+  unfold remIdx
+  split
+  · rw [Bool.eq_iff_iff]
+    simp [removalIdx]
+  · rename_i h
+    have h' : o.removeLines.isEmpty = true := by simpa using h
+    simp [removable_of_nil o h']
+
+theorem idxMap_eq (o : Opts) (oa : List Line) (k : Nat) :
+    idxMap o oa k = (survivorIdx o oa).getD k k := by
+  unfold idxMap
+  split
+  · rfl
+  · rename_i h
+    have h' : o.removeLines.isEmpty = true := by simpa using h
+    have : survivorIdx o oa = List.range oa.length := by
+      unfold survivorIdx
+      rw [List.filter_eq_self]
+      intro x _
+      simp [removable_of_nil o h']
+    rw [this]
+    by_cases hk : k < oa.length
+    · simp [hk]
+    · simp [hk]
+
+theorem survivorIdx_nodup (o : Opts) (oa : List Line) : (survivorIdx o oa).Nodup :=
+  List.Pairwise.filter _ List.nodup_range
+
+theorem nodup_getElem_inj {S : List Nat} (hS : S.Nodup) {i j : Nat} (hi : i < S.length) (hj : j < S.length)
+    (h : S[i] = S[j]) : i = j := by
+  have hp := List.pairwise_iff_getElem.mp hS
+  rcases Nat.lt_trichotomy i j with hlt | heq | hgt
+  · exact absurd h (hp i j hi hj hlt)
+  · exact heq
+  · exact absurd h.symm (hp j i hj hi hgt)
+
+theorem survivorIdx_length (o : Opts) (oa : List Line) :
+    (survivorIdx o oa).length = (oa.filter (nR o)).length := by
+  rw [← filterIdx_map (nR o) [] oa, List.length_map]
+  rfl
+
+/-- membership in a list of mapped positions, for an injective position table -/
+theorem mapped_contains (S : List Nat) (hS : S.Nodup) (k ia : Nat) (hk : S[k]? = some ia) (f : Nat → Bool) :
+    (((List.range S.length).filter f).map (fun j => S.getD j j)).contains ia = f k := by
+  have hk' : k < S.length := by
+    rcases Nat.lt_or_ge k S.length with h | h
+    · exact h
+    · rw [List.getElem?_eq_none h] at hk; cases hk
+  have hke : S[k] = ia := by
+    rw [List.getElem?_eq_getElem hk'] at hk; exact Option.some.inj hk
+  rw [Bool.eq_iff_iff]
+  simp only [List.contains_iff_mem, List.mem_map, List.mem_filter, List.mem_range]
+  constructor
+  · rintro ⟨j, ⟨hj, hf⟩, he⟩
+    have : S.getD j j = S[j] := by simp [hj]
+    rw [this, ← hke] at he
+    have := nodup_getElem_inj hS hj hk' he
+    subst this
+    exact hf
+  · intro hf
+    exact ⟨k, ⟨hk', hf⟩, by simp [hk', hke]⟩
+
+theorem filter_length_take_drop {α} (p : α → Bool) (l : List α) (i : Nat) :
+    (l.filter p).length = ((l.take i).filter p).length + ((l.drop i).filter p).length := by
+  conv => lhs; rw [← List.take_append_drop i l]
+  rw [List.filter_append, List.length_append]
+
+/-- in the same-length case, a surviving pair of lines is marked as ignorable exactly when
+    `canIgnore` holds for it -/
+theorem ign_char (o : Opts) (pat : PatFn) (oa oe : List Line)
+    (hl : (oa.filter (nR o)).length = (oe.filter (nR o)).length)
+    (ia ie : Nat) (ha : ia < oa.length) (he : ie < oe.length)
+    (hRa : removable o oa[ia] = false) (hRe : removable o oe[ie] = false)
+    (hcnt : ((oa.drop ia).filter (nR o)).length = ((oe.drop ie).filter (nR o)).length)
+    (hn : normalize o oa[ia] ≠ normalize o oe[ie]) :
+    ((((List.range (oa.filter (nR o)).length).filter
+        (fun i => normalize o ((oa.filter (nR o)).getD i []) != normalize o ((oe.filter (nR o)).getD i []))).filter
+        (fun i => canIgnore o pat ((oa.filter (nR o)).getD i []) ((oe.filter (nR o)).getD i []))).map
+        (fun j => (survivorIdx o oa).getD j j)).contains ia = canIgnore o pat oa[ia] oe[ie] ∧
+    ((((List.range (oa.filter (nR o)).length).filter
+        (fun i => normalize o ((oa.filter (nR o)).getD i []) != normalize o ((oe.filter (nR o)).getD i []))).filter
+        (fun i => canIgnore o pat ((oa.filter (nR o)).getD i []) ((oe.filter (nR o)).getD i []))).map
+        (fun j => (survivorIdx o oe).getD j j)).contains ie = canIgnore o pat oa[ia] oe[ie] := by
+  have hpa : nR o oa[ia] = true := by simp [nR, hRa]
+  have hpe : nR o oe[ie] = true := by simp [nR, hRe]
+  have hk : ((oa.take ia).filter (nR o)).length = ((oe.take ie).filter (nR o)).length := by
+    have h1 := filter_length_take_drop (nR o) oa ia
+    have h2 := filter_length_take_drop (nR o) oe ie
+    omega
+  have hSa := filterIdx_getElem? (nR o) [] oa ia ha hpa
+  have hSe := filterIdx_getElem? (nR o) [] oe ie he hpe
+  have hAa := filter_getElem?_of_split (nR o) oa ia ha hpa
+  have hAe := filter_getElem?_of_split (nR o) oe ie he hpe
+  rw [← hk] at hSe hAe
+  generalize ((oa.take ia).filter (nR o)).length = k at *
+  have hga : (oa.filter (nR o)).getD k [] = oa[ia] := by simp [List.getD_eq_getElem?_getD, hAa]
+  have hge : (oe.filter (nR o)).getD k [] = oe[ie] := by simp [List.getD_eq_getElem?_getD, hAe]
+  rw [List.filter_filter]
+  constructor
+  · rw [← survivorIdx_length o oa]
+    have := mapped_contains (survivorIdx o oa) (survivorIdx_nodup o oa) k ia hSa
+      (fun i => canIgnore o pat ((oa.filter (nR o)).getD i []) ((oe.filter (nR o)).getD i []) &&
+        (normalize o ((oa.filter (nR o)).getD i []) != normalize o ((oe.filter (nR o)).getD i [])))
+    rw [this]
+    simp only [hga, hge]
+    simp [hn]
+  · rw [hl, ← survivorIdx_length o oe]
+    have := mapped_contains (survivorIdx o oe) (survivorIdx_nodup o oe) k ie hSe
+      (fun i => canIgnore o pat ((oa.filter (nR o)).getD i []) ((oe.filter (nR o)).getD i []) &&
+        (normalize o ((oa.filter (nR o)).getD i []) != normalize o ((oe.filter (nR o)).getD i [])))
+    rw [this]
+    simp only [hga, hge]
+    simp [hn]
+
+/-! ## the artefact theorems that need the above -/
+
+theorem raw_actual_content (o : Opts) (pat : PatFn) (a e : List Line) (gnl : Bool)
+    (hf : (checkStrings o pat a e).failures = 1) (hc : o.createTemporaries = true)
+    (hs : o.actualPath = false) :
+    (plan o (checkStrings o pat a e) gnl).rawActual = some (joinNl (kept o a)) := by
+  have hk : (checkStrings o pat a e).actualAfter = kept o a := by
+    rw [cs_actualAfter, after_eq]; rfl
+  unfold plan
+  simp only [hf, hc, hs, hk]
+  split
+  · rename_i h
+    exact absurd h (by decide)
+  · split <;> rfl
 
 theorem postprocessed_differ_exactly (o : Opts) (pat : PatFn) (a e : List Line)
     (ra re : List Line)
@@ -43,6 +617,23 @@ theorem postprocessed_differ_exactly (o : Opts) (pat : PatFn) (a e : List Line)
     ra.length = re.length ∧
     (ra.zip re).filter (fun p => p.1 != p.2)
       = (badPairs o pat a e).map (fun p => (normalize o p.1, normalize o p.2)) := by
-  sorry
+  have hl' : ((dropTrailingEmpty a).filter (nR o)).length = ((dropTrailingEmpty e).filter (nR o)).length := hl
+  have hrec := cs_recon o pat a e ra re (by rw [after_eq, after_eq]; exact hl') hr
+  unfold badPairs kept
+  generalize dropTrailingEmpty a = oa at *
+  generalize dropTrailingEmpty e = oe at *
+  rw [(wrongContent_ign _ _ _ _ _ _ _).1, (wrongContent_ign _ _ _ _ _ _ _).2] at hrec
+  have hma : idxMap o oa = fun j => (survivorIdx o oa).getD j j := funext (idxMap_eq o oa)
+  have hme : idxMap o oe = fun j => (survivorIdx o oe).getD j j := funext (idxMap_eq o oe)
+  rw [hma, hme, after_eq, after_eq] at hrec
+  unfold diffsOf reconstruct at hrec
+  have := loop_spec o pat oa oe _ _ _ _ (remIdx_contains o oa) (remIdx_contains o oe)
+    (fun ia ie ha he hRa hRe hcnt hn => by
+      have h := ign_char o pat oa oe hl' ia ie ha he hRa hRe hcnt hn
+      rw [h.1, h.2, Bool.or_self])
+    ((oa.map (normalize o)).length + (oe.map (normalize o)).length + 1) 0 0 [] []
+    (by omega) (by omega) (by simp) (by simpa using hl') rfl
+  rw [← hrec] at this
+  simpa using this
 
 end TddaVerif.Props.C15.Lemmas
